@@ -1381,9 +1381,10 @@ def run(ctx):
     ])
 
 
-PENDING = ["customizedUnion / merge / Set.union / subset / Set.map keep a fuel argument in the model; the theorems show any fuel above the operand sizes suffices and the history theorems use internally computed fuel",
+PENDING = ["the model functions customizedUnion / merge / Set.union / subset / Set.map still take a fuel argument; proved: fuel-free wrappers (customizedUnionF, mergeF, unionF, mapF, subsetF theorems without any fuel hypothesis) and, for customizedUnion and Set.union, that the fuel is unobservable (customizedUnion_fuel_irrelevant, set_union_fuel_irrelevant); the same irrelevance statement for merge / subset / Set.map is not proved (totality for every sufficient fuel is)",
            "reference-semantics leg (Source.eval): exact line equality with wasm, except that runs flagged `refeq` (object `==`) may differ in tree shape and are then judged by the specification oracle (contents + invariants)",
-           "Tuple4 .. Tuple16 are represented by the Pair/Triple transcription (same two methods)"]
+           "Tuple4 .. Tuple16 first/second are represented by the Pair/Triple transcription (C07's generated table covers the field declarations only, not these methods)",
+           "physical identity (`this == other`) is not expressible in the model; tied by the aliasing family of the sweep"]
 
 def replay(ctx, path):
     common.build_harness("C18"); common.build_lean(["drv-c18"])
